@@ -428,7 +428,7 @@ def fmt_path(path: List[Node]) -> str:
                 t = ast.unparse(n.ast).split("\n")[0][:70]
             except Exception:
                 t = n.kind
-            out.append(f"L{n.lineno}:{t}")
+            out.append(f"L{getattr(n.ast, '_orig_lineno', n.lineno) if n.ast is not None else n.lineno}:{t}")
         else:
             out.append(n.kind.upper())
     return " -> ".join(out)
